@@ -432,6 +432,41 @@ def radial_centres(draw, ps):
 
 
 # ---------------------------------------------------------------------------------------------
+# per-pixel sub-size tables that were created for a mask at ANOTHER origin
+# ---------------------------------------------------------------------------------------------
+def sub_table_list(case, n):
+    """per-pixel sub sizes 1..3 of a case (drawn, or a fixed pattern for cases / replays that only have an int)."""
+    t = case.get("sub_table")
+    if t is None:
+        t = case["sub"] if isinstance(case.get("sub"), list) else [(i * 7 + 1) % 3 + 1 for i in range(n)]
+    return [int(v) for v in t]
+
+
+def table_forms(aa, mask, subs):
+    """the forms a sub-size table takes in the API; the Array2D ones carry `mask` (and therefore its origin)."""
+    return {"array2d": aa.Array2D(values=np.asarray(subs, dtype=int), mask=mask),
+            "array2d-float": aa.Array2D(values=np.asarray(subs, dtype=float), mask=mask),
+            "ndarray": np.asarray(subs, dtype=int), "list": list(subs)}
+
+
+def f_sampler_grid(o):
+    """an over sampler (or border relocator): where its sub-pixels are and which mask it samples."""
+    g = o.over_sampled_grid if hasattr(o, "over_sampled_grid") else o.sub_grid
+    return [("over_sampled_grid", "coord", _xy(g)), ("mask.origin", "coord", np.asarray(o.mask.origin, dtype=float))]
+
+
+def subtracted_relation(ctx, key, aa, wd, table, offset):
+    """Grid2D.subtracted_from is itself a translation of the origin by -offset that keeps the over-sampling scheme
+    (and the table inside it): the over-sampled grid of the shifted grid must be the old one minus the offset."""
+    g = aa.Grid2D.from_mask(mask=wd.new_mask(), over_sampling=aa.OverSamplingUniform(sub_size=table))
+    gs = g.subtracted_from(offset=tuple(offset))
+    a, b = _xy(g.over_sampler.over_sampled_grid), _xy(gs.over_sampler.over_sampled_grid)
+    ctx.close(b, a - np.asarray(offset, dtype=float), key, atol=tol(wd.mag),
+              what=key + " over-sampled grid after subtracted_from(%s) vs before minus offset" % (list(offset),))
+    ctx.close(_xy(gs), _xy(g) - np.asarray(offset, dtype=float), key, atol=tol(wd.mag), what=key + " pixel centres")
+
+
+# ---------------------------------------------------------------------------------------------
 # sub-check: mask_grids
 # ---------------------------------------------------------------------------------------------
 @st.composite
@@ -529,6 +564,23 @@ def body_mask_grids(case, ctx):
     ob("border_relocator/sub_border_grid", lambda wd: relocator(wd).sub_border_grid, f_coord_grid)
     ob("border_relocator/border_grid", lambda wd: relocator(wd).border_grid, f_grid)
     ob("border_relocator/sub_border_slim", lambda wd: relocator(wd).sub_border_slim, f_exact)
+    # sub-size tables created on the mask of the OTHER world (same bools and scales, other origin): the sub-pixels
+    # must sit on the mask being sampled, not where the table came from
+    n_un = int((~m).sum())
+    tsub = sub_table_list(case, n_un)
+    other = {0: w1, 1: w0}
+    if any(abs(v) > 0 for v in case["offset"]):
+        for wd in (w0, w1):
+            subtracted_relation(ctx, "grid/subtracted_from/over_sampler", aa, wd, table_forms(aa, other[wd.which].mask, tsub)["array2d"], case["offset"])
+    for form in ("array2d", "array2d-float", "ndarray", "list"):
+        tab = lambda wd: table_forms(aa, other[wd.which].mask, tsub)[form]
+        ob("sub_table/%s/over_sampler_uniform" % form, lambda wd: aa.OverSamplerUniform(mask=wd.mask, sub_size=tab(wd)), f_sampler_grid)
+        ob("sub_table/%s/grid_over_sampler" % form, lambda wd: aa.Grid2D.from_mask(
+            mask=wd.mask, over_sampling=aa.OverSamplingUniform(sub_size=tab(wd))).over_sampler, f_sampler_grid)
+        if form in ("array2d", "ndarray"):
+            ob("sub_table/%s/tables" % form, lambda wd: _os_tables(aa.OverSamplerUniform(mask=wd.mask, sub_size=tab(wd))), lambda t: t)
+    ob("sub_table/array2d/border_relocator", lambda wd: aa.BorderRelocator(
+        mask=wd.mask, sub_size=table_forms(aa, other[wd.which].mask, tsub)["array2d"]), f_sampler_grid)
     # centre, extent
     ob("mask/mask_centre", lambda wd: wd.mask.mask_centre, f_coord)
     ob("geometry/extent", lambda wd: wd.mask.geometry.extent, f_extent)
@@ -942,6 +994,9 @@ def shared_cases(draw):
     mask = draw(offcentre_masks(lo=2, hi=5, ring=ring, min_unmasked=3))
     case["mask"] = mask
     case["subs"] = [draw(st.integers(1, 3)) for _ in range(5)]
+    n_un = sum(1 for r in mask for v in r if not v)
+    case["sub_table"] = draw(st.lists(st.integers(1, 3), min_size=n_un, max_size=n_un))
+    case["offset"] = [draw(gens.reals(-3, 3, allow_zero=False)), draw(gens.reals(-3, 3))]
     case["iterate"] = iterate_spec(draw)
     case["warp"] = draw(scene.warps())
     y0, y1, x0, x1 = bbox(mask)
@@ -1001,6 +1056,35 @@ def body_shared_config(case, ctx):
     ob("shared/over_sampling_uniform/over_sampler_from", lambda wd: os_u.over_sampler_from(mask=wd.new_mask()), f_sampler)
     ob("shared/grid/over_sampler", lambda wd: aa.Grid2D.from_mask(mask=wd.new_mask(), over_sampling=os_p).over_sampler, f_sampler)
 
+    # ONE per-pixel sub-size table (each API form) built on the mask of the world that is built first, and ONE scheme
+    # per constructor built from that world's grid / data, all of them then used for both origins
+    first = w1 if case.get("order", 0) else w0
+    tsub = sub_table_list(case, int((~m).sum()))
+    forms = table_forms(aa, first.new_mask(), tsub)
+    schemes = {k: aa.OverSamplingUniform(sub_size=v) for k, v in forms.items()}
+    first_grid = aa.Grid2D.from_mask(mask=first.new_mask())
+    schemes["from_radial_bins"] = aa.OverSamplingUniform.from_radial_bins(
+        grid=first_grid, sub_size_list=[3, 2, 1], radial_list=[0.7 * min(w0.ps), 1.6 * max(w0.ps), 1.0e3],
+        centre_list=[first.at((0.1 * w0.ps[0], -0.2 * w0.ps[1]))])
+    schemes["from_adapt"] = aa.OverSamplingUniform.from_adapt(
+        data=aa.Array2D(values=vals.copy(), mask=first.new_mask()), noise_map=aa.Array2D(values=noise.copy(), mask=first.new_mask()),
+        signal_to_noise_cut=6.0, sub_size_lower=1, sub_size_upper=3)
+    for form, tab in forms.items():
+        ob("shared/sub_table/%s/over_sampler_uniform" % form,
+           lambda wd: aa.OverSamplerUniform(mask=wd.new_mask(), sub_size=tab), f_sampler_grid)
+    for name, sch in schemes.items():
+        ob("shared/sub_table/%s/grid_over_sampler" % name,
+           lambda wd: aa.Grid2D.from_mask(mask=wd.new_mask(), over_sampling=sch).over_sampler, f_sampler_grid)
+        ob("shared/sub_table/%s/over_sampler_from" % name, lambda wd: sch.over_sampler_from(mask=wd.new_mask()), f_sampler_grid)
+        ob("shared/sub_table/%s/scheme_sub_size" % name,
+           lambda wd: aa.OverSamplerUniform(mask=wd.new_mask(), sub_size=sch.sub_size), f_sampler_grid)
+    ob("shared/sub_table/array2d/tables", lambda wd: _os_tables(aa.OverSamplerUniform(mask=wd.new_mask(), sub_size=forms["array2d"])), lambda t: t)
+    ob("shared/sub_table/array2d/border_relocator",
+       lambda wd: aa.BorderRelocator(mask=wd.new_mask(), sub_size=forms["array2d"]), f_sampler_grid)
+    for wd in ((w1, w0) if case.get("order", 0) else (w0, w1)):
+        subtracted_relation(ctx, "shared/sub_table/subtracted_from", aa, wd, forms["array2d"], case.get("offset", [1.0, -2.0]))
+    os_table = aa.OverSamplingDataset(uniform=schemes["array2d"], pixelization=schemes["from_adapt"], non_uniform=schemes["ndarray"])
+
     def dataset(wd):
         return aa.Imaging(data=aa.Array2D.no_mask(values=vals.copy(), pixel_scales=wd.ps, origin=wd.origin),
                           noise_map=aa.Array2D.no_mask(values=noise.copy(), pixel_scales=wd.ps, origin=wd.origin),
@@ -1017,6 +1101,8 @@ def body_shared_config(case, ctx):
         return f
 
     ob("shared/imaging/apply_mask", lambda wd: dataset(wd).apply_mask(mask=wd.new_mask()), f_masked)
+    ob("shared/sub_table/imaging/apply_over_sampling",
+       lambda wd: dataset(wd).apply_mask(mask=wd.new_mask()).apply_over_sampling(over_sampling=os_table), f_masked)
     ob("shared/imaging/apply_over_sampling",
        lambda wd: dataset(wd).apply_mask(mask=wd.new_mask()).apply_over_sampling(over_sampling=os_data2), f_masked)
 
